@@ -100,9 +100,15 @@ int main(int argc, char **argv) {
     std::string input;
     for (size_t i = 0; i + 1 < hexin.size(); i += 2) input += (char)strtol(hexin.substr(i, 2).c_str(), nullptr, 16);
     long maxsteps = jnum(line, "maxsteps", 200000), maxev = jnum(line, "maxev", 4000);
+    if (fk || fy) {
+      struct itimerval tk = {{0, 0}, {cpu_s < 5 ? cpu_s : 5, 0}};      // a lexer / parser that never ends must not hang the check
+      setitimer(ITIMER_VIRTUAL, &tk, nullptr);
+    }
     if (fk) {
       std::ostringstream ts; std::string st = "ok";
       try { xcmp::Driver dr(ts); dr.run(xcmp::DriverAction::EMIT_TOKENS, src, false); } catch (const std::exception &) { st = "error"; }
+      struct itimerval tk0 = {{0, 0}, {0, 0}};
+      setitimer(ITIMER_VIRTUAL, &tk0, nullptr);
       fprintf(g_out, "{\"id\":\"%s\",\"idx\":%ld,\"status\":\"%s\",\"tokens\":\"%s\"}\n", jesc(g_id).c_str(), g_index, st.c_str(), jesc(ts.str()).c_str());
       continue;
     }
@@ -138,6 +144,8 @@ int main(int argc, char **argv) {
       }
       fprintf(g_out, "{\"id\":\"%s\",\"idx\":%ld,\"status\":\"%s\",\"diag\":\"%s\",\"toks\":%s,\"tree\":\"%s\",\"optstatus\":\"%s\",\"treeopt\":\"%s\"}\n", jesc(g_id).c_str(), g_index,
               st[0].c_str(), jesc(dg[0]).c_str(), toks.c_str(), jesc(out[0]).c_str(), st[1].c_str(), jesc(out[1]).c_str());
+      struct itimerval tk0 = {{0, 0}, {0, 0}};
+      setitimer(ITIMER_VIRTUAL, &tk0, nullptr);
       continue;
     }
     struct itimerval tv = {{0, 0}, {cpu_s, 0}};
